@@ -795,7 +795,9 @@ class unyt_array(np.ndarray):
                     f"Input dtype ({self.dtype}) has a smaller itemsize than the "
                     "smallest floating point representation possible."
                 )
-            self.units = new_units
+            if not values.flags.writeable:
+                # refuse before the unit (and, for integers, the dtype) is changed
+                raise ValueError("output array is read-only")
             # if our dtype is an integer do the following somewhat awkward
             # dance to change the dtype in-place. We can't use astype
             # directly because that will create a copy and not update self
@@ -824,6 +826,7 @@ class unyt_array(np.ndarray):
 
             if offset:
                 np.subtract(values, offset, values)
+            self.units = new_units
         else:
             self.convert_to_equivalent(units, equivalence, **kwargs)
 
